@@ -1829,6 +1829,12 @@ def eager_getitem_lambda(op, lhs, rhs):
 def eager_getslice_lambda(op, x):
     index = normalize_ellipsis(op.defaults["index"], len(x.shape))
     head, tail = index[0], index[1:]
+    if head is None:
+        # x[None, ...] inserts a new leading dim of size 1 in front of x[...].
+        name = "_newaxis"
+        while name in x.inputs:
+            name += "_"
+        return Lambda(Variable(name, Bint[1]), ops.getslice(x, tail) if tail else x)
     expr = x.expr
     var = x.var
     if isinstance(head, slice) and var.name not in expr.inputs:
